@@ -240,6 +240,7 @@ impl Engine {
         let mut axm = None;
         let emu = match util::catch(|| {
             let mut ax = mach::build_ax(c, &images).map_err(|e| format!("machine construction failed: {}", e))?;
+            mach::run_prelude(&mut ax, c, &images);
             let before_meta = ax.verif_area_meta();
             let r = block_on(ax.step()).map_err(|e| e.to_string());
             Ok::<_, String>((ax, before_meta, r))
